@@ -13,5 +13,38 @@ b = s.index("## Appendix A — traceability")
 if a < 0:
     a = b
 s = s[:a] + sec + s[b:]
+# a status line under every per-property heading of section 4 (regenerated)
+import glob
+import json
+import re
+seeds = {}
+for d in sorted(glob.glob(os.path.join(V, "seeded", "*", "meta.json"))):
+    m = json.load(open(d))
+    seeds.setdefault(m["property"], []).append(m["name"] + ("" if not m.get("history") else "*"))
+out = []
+lines = s.split("\n")
+i = 0
+while i < len(lines):
+    line = lines[i]
+    out.append(line)
+    m = re.match(r"### (C\d\d) — ", line)
+    if m and i < 1400:
+        pid = m.group(1)
+        if i + 2 < len(lines) and lines[i + 2].startswith("> **Built.**"):
+            i += 2          # drop the old status line (and the blank line before it)
+        ev = os.path.join(V, "evidence", pid + ".json")
+        extra = ""
+        if os.path.exists(ev):
+            e = json.load(open(ev))
+            c = e["coverage"]
+            extra = (f" Last {e['tier']} run: {c.get('states', 0):,} TLC states, {c.get('traces_validated_against_impl', 0):,} "
+                     f"scenarios of the real code validated, {e['wall_s']:.0f} s.")
+        sd = ", ".join(seeds.get(pid, [])) or "none yet"
+        out.append("")
+        out.append(f"> **Built.** Pipeline `lib/props.py` (`@prop(\"{pid}\")`); what runs today and how it deviates from the plan "
+                   f"below is recorded in section 11.{extra} Seeded changes: {sd} (* = first missed, then caught after the "
+                   f"check was strengthened; see 11.5).")
+    i += 1
+s = "\n".join(out)
 open(os.path.join(V, "DESIGN.md"), "w").write(s)
 print("DESIGN.md section 11 updated")
